@@ -453,6 +453,7 @@ class ExcelCompiler:
                 type(cell_or_range.value) is not type(value)):  # pragma: no branch
             # need to be able to 'set' an empty cell, set to not None
             cell_or_range.value = value
+            self._inputs_changed = True
 
             # reset the node + its dependencies
             if not self.cycles:
@@ -720,9 +721,18 @@ class ExcelCompiler:
             # stick in queue to add edges
             self.graph_todos.append(node)
 
+        def stored_value(value, formula):
+            # once an input was changed the stored results of formulas
+            # which have not been loaded yet can not be trusted
+            if formula and getattr(self, '_inputs_changed', False):
+                return None
+            return value
+
         def build_cell(excel_cell):
-            a_cell = self.Cell(excel_cell.address, value=excel_cell.values,
-                               formula=excel_cell.formula, excel=self.excel)
+            a_cell = self.Cell(
+                excel_cell.address,
+                value=stored_value(excel_cell.values, excel_cell.formula),
+                formula=excel_cell.formula, excel=self.excel)
             self.cell_map[str(excel_cell.address)] = a_cell
             return [a_cell]
 
@@ -734,7 +744,8 @@ class ExcelCompiler:
             if isinstance(excel_range.formula, tuple):
                 for addr, value, formula in a_range.cells_to_build(excel_range):
                     if addr.address not in self.cell_map:
-                        a_cell = self.Cell(addr, value, formula, self.excel)
+                        a_cell = self.Cell(
+                            addr, stored_value(value, formula), formula, self.excel)
                         self.cell_map[addr.address] = a_cell
                         added.append(a_cell)
             else:
